@@ -174,10 +174,16 @@ func (vm *VM) Run() error {
 			if repetitions < 0 {
 				return fmt.Errorf("%w: negative count: %s", ErrBadRepetition, right)
 			}
-			if n := len(left.Elements); n > 0 && repetitions > math.MaxInt32/n {
+			n := len(left.Elements)
+			if n == 0 {
+				// nothing to repeat, whatever the count
+				err = vm.push(arrayVal{Elements: []value{}})
+				break
+			}
+			if repetitions > math.MaxInt32/n {
 				return fmt.Errorf("%w: result too large: %s", ErrBadRepetition, right)
 			}
-			elements := make([]value, 0, len(left.Elements)*repetitions)
+			elements := make([]value, 0, n*repetitions)
 			for range repetitions {
 				elements = append(elements, left.Elements...)
 			}
